@@ -1845,11 +1845,17 @@ class Builder:
         if not find(self.body_for_following, []):
             return None
         out = []
-        for stmts, i in reversed(path):
+        for k_ in range(len(path) - 1, -1, -1):
+            stmts, i = path[k_]
             out.extend(stmts[i + 1:])
-        for stmts, i in path[:-1]:
-            if isinstance(stmts[i], (ast.For, ast.While)):
-                return None
+            if k_ > 0:
+                parent = path[k_ - 1][0][path[k_ - 1][1]]
+                if isinstance(parent, (ast.For, ast.While)) and \
+                        stmts is parent.body:
+                    # back edge of the enclosing loop: its body starts over
+                    if isinstance(parent, ast.While):
+                        out.append(ast.Expr(value=parent.test))
+                    out.extend(stmts[:i + 1])
         return out
 
     def loop(self, st, env, ver, k2):
